@@ -45,6 +45,12 @@ def checkC08 (toks : List String) (res : String) : Option Verdict :=
     some { model := showRes showNum m, spec := spec, cls := cls,
            branch := ops ++ "/" ++ mode.toString ++ (if tie then "/tie" else "") ++ (if nearLimit && op == .div then "/nearlimit" else ""),
            nontrivial := spec.isSome }
+  | ["cmp", ops, mode, lt, rt, l, r] => do
+    -- comparisons behave exactly like the built-in ones (whichever operand is wrapped)
+    let op ← parseCmpOp ops; let mode ← parseRdMode mode; let L ← parseIntTy lt; let R ← parseIntTy rt
+    let l ← l.toInt?; let r ← r.toInt?
+    let m := Layered.cmp op (.rd (.int L) mode, l) (.rd (.int R) mode, r)
+    some { model := showRes showBool m, spec := some (showBool (cCmp op (L, l) (R, r)) == res), branch := "cmp/" ++ ops ++ "/" ++ mode.toString }
   | _ => none
 
 end Cnl.Drv
